@@ -168,6 +168,7 @@ fn random_strategy() -> impl Strategy<Value = Case> {
 pub fn main() {
     let args = Args::parse();
     engine::install_hook();
+    engine::maybe_replay_many::<Case>(PROP, &args, exec);
     let started = std::time::Instant::now();
     if let Some(p) = &args.replay {
         let case: Case = engine::load_replay(p);
